@@ -7,6 +7,7 @@ package main
 import (
 	"fmt"
 	"math/rand"
+	"sort"
 	"strings"
 	"sync"
 	"time"
@@ -90,6 +91,7 @@ type mmsg struct {
 	sender  uint16
 	status  int
 	arrival int // ticks pushed at arrival
+	at      int // logical time of the history at arrival (conservation monitor)
 }
 
 type mtopic struct {
@@ -116,6 +118,52 @@ type c15run struct {
 	gcRounds map[string]int
 	seq      int
 	gcSeq    int
+	// conservation monitor: messages that were released were buffered from their arrival to their release for sure
+	clock  int // one tick per received message and per Send
+	stored []c15interval
+}
+
+// c15interval: sender had a message buffered for topic during [from, to] (logical time of the history)
+type c15interval struct {
+	sender   uint16
+	topic    string
+	from, to int
+}
+
+// topicsHeld: the largest number of distinct topics in which one sender had messages buffered at the same instant, judged only
+// from messages that were released later (so they were in the buffer all the time in between, whatever the model thinks).
+func (r *c15run) topicsHeld() (uint16, int, int) {
+	type ev struct {
+		at    int
+		open  bool
+		topic string
+	}
+	per := map[uint16][]ev{}
+	for _, iv := range r.stored {
+		per[iv.sender] = append(per[iv.sender], ev{iv.from, true, iv.topic}, ev{iv.to, false, iv.topic})
+	}
+	var worstS uint16
+	worst, at := 0, 0
+	for sd, evs := range per {
+		sort.Slice(evs, func(i, j int) bool {
+			if evs[i].at != evs[j].at {
+				return evs[i].at < evs[j].at
+			}
+			return !evs[i].open && evs[j].open // a release at t frees the slot before an arrival at t
+		})
+		cnt := map[string]int{}
+		for _, e := range evs {
+			if e.open {
+				cnt[e.topic]++
+			} else if cnt[e.topic]--; cnt[e.topic] == 0 {
+				delete(cnt, e.topic)
+			}
+			if len(cnt) > worst {
+				worstS, worst, at = sd, len(cnt), e.at
+			}
+		}
+	}
+	return worstS, worst, at
 }
 
 func newC15run(hist c15hist) *c15run {
@@ -183,6 +231,7 @@ func (r *c15run) exec() (string, string) {
 		case "recv":
 			for k := 0; k < st.N; k++ {
 				r.seq++
+				r.clock++
 				id := fmt.Sprintf("%s/%d/#%d", st.Topic, st.Sender, r.seq)
 				t := m.topics[st.Topic]
 				if t == nil {
@@ -247,7 +296,7 @@ func (r *c15run) exec() (string, string) {
 				} else if len(out) != 0 {
 					return "forwarded-before-start", fmt.Sprintf("step %d %v: %d messages were handed over although the local party has not sent on the topic", si, st, len(out))
 				}
-				t.msgs = append(t.msgs, &mmsg{id: id, sender: st.Sender, status: status, arrival: m.ticks})
+				t.msgs = append(t.msgs, &mmsg{id: id, sender: st.Sender, status: status, arrival: m.ticks, at: r.clock})
 				if status != stMustNot {
 					t.lastArrival = m.ticks
 					delete(r.swept, st.Topic)
@@ -263,10 +312,23 @@ func (r *c15run) exec() (string, string) {
 				t = &mtopic{}
 				m.topics[st.Topic] = t
 			}
+			r.clock++
 			r.box.Send(uint8(tss.MsgTypeMPC), topic32(st.Topic), []byte("out"), 9)
 			out := r.h.take()
 			if sig, what := r.judgeRelease(si, st, t, out); sig != "" {
 				return sig, what
+			}
+			rel := map[string]bool{}
+			for _, o := range out {
+				rel[string(o.Data)] = true
+			}
+			for _, x := range t.msgs {
+				if rel[x.id] {
+					r.stored = append(r.stored, c15interval{x.sender, st.Topic, x.at, r.clock})
+				}
+			}
+			if sd, n, at := r.topicsHeld(); n > m.L+1 {
+				return "limit-exceeded/topics-per-sender", fmt.Sprintf("step %d %v: the messages released so far show that sender %d had messages buffered in %d topics at the same instant (logical time %d); the topic limit is %d (+1)", si, st, sd, n, at, m.L)
 			}
 			t.started = true
 			t.msgs = nil
@@ -447,6 +509,36 @@ func c15templates(L, ratio int) []c15hist {
 		h.Steps = append(h.Steps, c15step{Op: "send", Topic: "idle-stale-0"})
 		out = append(out, h)
 	}
+	// (g) a sender follows into topics that OTHER senders opened: the topic limit is per sender, whoever opened the topic
+	{
+		h := c15hist{Name: "follow-into-others-topics", L: L, Ratio: ratio}
+		var ts []string
+		for _, opener := range []uint16{3, 4, 5} {
+			for i := 0; i < L; i++ {
+				t := fmt.Sprintf("opened-by-%d-%d", opener, i)
+				ts = append(ts, t)
+				h.Steps = append(h.Steps, c15step{Op: "recv", Sender: opener, Topic: t, N: 1})
+			}
+		}
+		for _, t := range ts {
+			h.Steps = append(h.Steps, c15step{Op: "recv", Sender: 9, Topic: t, N: 1})
+		}
+		for _, t := range ts {
+			h.Steps = append(h.Steps, c15step{Op: "send", Topic: t})
+		}
+		// afterwards everybody must be served again
+		for _, sd := range []uint16{9, 3} {
+			for i := 0; i < L; i++ {
+				h.Steps = append(h.Steps, c15step{Op: "recv", Sender: sd, Topic: fmt.Sprintf("later-%d-%d", sd, i), N: 1})
+			}
+		}
+		for _, sd := range []uint16{9, 3} {
+			for i := 0; i < L; i++ {
+				h.Steps = append(h.Steps, c15step{Op: "send", Topic: fmt.Sprintf("later-%d-%d", sd, i)})
+			}
+		}
+		out = append(out, h)
+	}
 	// (f) retention: within the expiry nothing may vanish
 	{
 		h := c15hist{Name: "retention", L: L, Ratio: ratio}
@@ -491,6 +583,11 @@ func c15random(rng *rand.Rand, idx int) c15hist {
 			j := rng.Intn(len(open))
 			h.Steps = append(h.Steps, c15step{Op: "send", Topic: open[j]})
 			open = append(open[:j], open[j+1:]...)
+		case x < 15 && len(open) > L && rng.Intn(3) == 0: // one sender follows into every open topic
+			sd := senders[rng.Intn(len(senders))]
+			for _, t := range open {
+				h.Steps = append(h.Steps, c15step{Op: "recv", Sender: sd, Topic: t, N: 1})
+			}
 		case x < 16: // burst of new topics beyond the limit
 			s := senders[rng.Intn(len(senders))]
 			for k := 0; k < L+1+rng.Intn(4); k++ {
